@@ -196,15 +196,17 @@ def execute(case):
                     continue
                 bump('argmax_onehot_checks_eval' if not training else 'argmax_onehot_checks_hard_train')
                 if not torch.equal(sel, wsel):
-                    what = 'eval-not-onehot-argmax' if not training else 'hard-not-onehot-argmax'
-                    if what == 'eval-not-onehot-argmax' and f'{method}:{what}' in known and not opts['hard']:
-                        # known finding (KNOWN_FINDINGS.txt): skip exactly this comparison, but only if the
-                        # sample is the documented soft mixture softmax(alpha / T); anything else is reported
+                    what = 'hard-not-onehot-argmax'
+                    if not training:
+                        # classification is independent of the known-findings file: a sample that is the plain soft
+                        # mixture softmax(alpha / T) is one class, anything else (stale, noisy, ...) another
                         soft = torch.softmax(alpha / opts['temperature'], dim=0)
-                        if torch.allclose(theta, soft, rtol=1e-4, atol=1e-6):
+                        is_soft = theta.shape == soft.shape and torch.allclose(theta, soft, rtol=1e-4, atol=1e-6)
+                        what = 'eval-not-onehot-argmax' if is_soft else 'eval-neither-onehot-nor-softmax'
+                        if is_soft and f'{method}:{what}' in known and not opts['hard']:
+                            # known finding (KNOWN_FINDINGS.txt): skip exactly this comparison and count it
                             known_suppressed[f'{method}:{what}'] = known_suppressed.get(f'{method}:{what}', 0) + 1
                             continue
-                        what = 'eval-neither-onehot-nor-softmax'
                     fail('in eval mode / hard non-Gumbel training the sampled coefficients are not the one-hot at the '
                          'largest raw coefficient', what,
                          f'{tag}: {n}: raw {alpha.flatten()[:6].tolist()} T={opts["temperature"]} sampled '
